@@ -83,7 +83,25 @@ def run_C10(run):
                       CHECKER)
 
 
-TABLE = {"C02": run_C02, "C10": run_C10}
+# ------------------------------------------------------------------------------------------ C08
+C08_CFGS = [("", []), ("_LHNO", ["-DGLM_FORCE_LEFT_HANDED"]), ("_RHZO", ["-DGLM_FORCE_DEPTH_ZERO_TO_ONE"]), ("_LHZO", ["-DGLM_FORCE_LEFT_HANDED", "-DGLM_FORCE_DEPTH_ZERO_TO_ONE"])]
+
+def run_C08(run):
+    stats = par([lambda sfx=sfx, fl=fl: run.build_trace("tr_C08", "Gen_C08" + sfx, ["-DVT_NO_ASSERT"] + fl) for sfx, fl in C08_CFGS])
+    trace_cov(run, stats)
+    gens = [os.path.join(run.dir, "Gen_C08%s.v" % sfx) for sfx, _ in C08_CFGS if os.path.exists(os.path.join(run.dir, "Gen_C08%s.v" % sfx))]
+    run.prove(gens, ["C08/A_C08_defs.v"], ["C08/P_C08_ortho_frustum.v", "C08/P_C08_perspective.v", "C08/P_C08_dispatch.v", "C08/P_C08_project.v"], "C08/Properties_C08.v")
+    fails = oracle_sweep(run, "C08", [(sfx.strip("_") or "RHNO", fl) for sfx, fl in C08_CFGS], run.tier)
+    run.fails = run.triage(fails)
+    run.assumptions = ["statements are about the exact real-number value (evalR) of the traced float expressions; tan/sin/cos are the real functions; no rounding bound is proved",
+                       "project/unProject: the viewport/depth mapping of project and the configuration dispatch of both are proved; the round trip unProject(project(p)) = p is exercised by the oracle only (partial)",
+                       "double precision shares the template code (oracle only); the traces are taken with assert() disabled (the theorems' hypotheses are weaker than GLM's asserts)"]
+    return run.finish(TRUST_COMMON + ["oracle_C08.cpp: long-double corner evaluation, compiled under the four clip-control configurations (violation search only)"],
+                      "theorems: all parameter values universally quantified under non-degeneracy hypotheses; 45 builders x 4 configurations enumerated; oracle: random valid parameter sets, float and double, 4 configurations",
+                      CHECKER)
+
+
+TABLE = {"C02": run_C02, "C10": run_C10, "C08": run_C08}
 
 
 def replay(pid, path):
